@@ -86,11 +86,13 @@ def make_matrix(rng, kind, nmax, weighted=True, nmin=5):
 def seed_form(rng, d, n, default):
     """d: {node: value}. Returns one of the documented forms: dict / array / list."""
     form = rng.choice(['dict', 'array', 'list', 'farray'])
+    # "negative values are ignored": any negative marker stands for "no seed", not only -1 (seed C17_4 needed -2 / -5)
+    marks = [default, default, -2, -5] if default is not None and default < 0 else [default]
     if form == 'farray':     # a float64 ndarray: the form an implementation is most tempted to use without copying
-        return {'farray': [float(d.get(i, default)) for i in range(n)]}
+        return {'farray': [float(d[i]) if i in d else float(rng.choice(marks)) for i in range(n)]}
     if form == 'dict':
         return {'dict': {str(k): v for k, v in d.items()}}
-    arr = [d.get(i, default) for i in range(n)]
+    arr = [d[i] if i in d else rng.choice(marks) for i in range(n)]
     return {'array': arr} if form == 'array' else arr
 
 
